@@ -240,31 +240,40 @@ Fixpoint snap_check (id : N) (keep : nat) (t : ptable) (before : listing) (ops :
 (* cmdutils: export from one place, import in another through a state manager *)
 Definition has_origins (es : list entry) : bool := existsb (fun e => negb (decodable e)) es.
 
+Definition imp_code (r : imp_res) : N := match r with ImpOk => 0 | ImpErr => 1 | ImpCrash => 2 end.
+
+(* finding recognisers (shapes of the input, not the property) *)
+Definition is_S19 (exported : list entry) : bool := has_origins exported.                 (* some pin has origins *)
+Definition is_empty_crdt_import (mgr : N) (lines : list jline) : bool :=
+  negb (N.eqb mgr 0) && match lines with [] => true | _ => false end.
+
 Definition export_check (id : N) (mgr : N) (keep : nat) (t : ptable) (src : N) (dst0 : option N)
            (exported : list entry) (lines : list jline) (edited : bool)
-           (obs_ok : bool) (obs_after : list entry) (obs_listing : listing) : list (N * N * N) :=
-  let tag := if has_origins exported then 1 else 0 in
+           (obs_res : N (* 0 ok, 1 error, 2 panic *)) (obs_after : list entry) (obs_listing : listing) : list (N * N * N) :=
   (* the export holds exactly the source pinset *)
   (if entries_eqb (sorted_entries exported) (pinset_of t src) then [] else [(id, 1, 0); (id, 16, 0)]) ++
   (if N.eqb mgr 0 then
      let d0 := mk_dir (match dst0 with Some i => Some (7, Some (pinset_of t i)) | None => None end) (fun _ => None) in
-     let '(d', ok) := raft_import keep (fun x => x) lines d0 in
-     if Bool.eqb ok obs_ok && entries_eqb (sorted_entries (offline_state d' [])) obs_after
+     let '(d', r) := raft_import keep (fun x => x) lines d0 in
+     if N.eqb (imp_code r) obs_res && entries_eqb (sorted_entries (offline_state d' [])) obs_after
         && list_eqb ofold_eqb (snap_listing t (Nat.pred (length obs_listing)) d') obs_listing
      then [] else [(id, 1, 0)]
    else
-     let '(s', ok) := crdt_import lines (match dst0 with Some i => pinset_of t i | None => [] end) in
-     if Bool.eqb ok obs_ok && entries_eqb (sorted_entries s') obs_after then [] else [(id, 1, 0)]) ++
+     let '(s', r) := crdt_import lines (match dst0 with Some i => pinset_of t i | None => [] end) in
+     if N.eqb (imp_code r) obs_res && entries_eqb (sorted_entries s') obs_after then [] else [(id, 1, 0)]) ++
   (* export then import reproduces the pinset and replaces whatever was there *)
   (if edited then [] else
-     if obs_ok && entries_eqb obs_after (pinset_of t src) then [] else [(id, 17, tag)]).
+     if N.eqb obs_res 0 && entries_eqb obs_after (pinset_of t src) then []
+     else [(id, 17, if is_S19 exported then 1 else if is_empty_crdt_import mgr lines then 2 else 0)]) ++
+  (* an import never takes the process down, whatever the stream *)
+  (if N.eqb obs_res 2 then [(id, 18, if is_empty_crdt_import mgr lines then 2 else 0)] else []).
 
 (* ------------------------------------------------------------------ *)
 Inductive payload :=
 | PMarshal (pins : list entry) (obs : option (list entry))
 | PSnap (keep : nat) (t : ptable) (olds0 : listing) (ops : list sop) (obs : list (listing * list entry * list entry))
 | PExport (mgr : N) (keep : nat) (t : ptable) (src : N) (dst0 : option N) (exported : list entry) (lines : list jline)
-          (edited obs_ok : bool) (obs_after : list entry) (obs_listing : listing)
+          (edited : bool) (obs_res : N) (obs_after : list entry) (obs_listing : listing)
 | PPsFile (self : N) (ls : list line) (query : list N) (obs_load : list (option paddr)) (obs_infos : option (list pinfo))
 | PPsSave (self1 self2 : N) (pre : list (N * list transport * option nat)) (query query2 : list N)
           (obs0 : list pinfo) (obs_lines : list line) (obs_load : list (option paddr)) (obs2 : option (list pinfo))
